@@ -2,4 +2,5 @@
 open Modelgen
 let table : (string * (z list -> z list)) list = [
   ("coll", run_coll);
+  ("kernel", run_kernel);
 ]
